@@ -10,6 +10,39 @@ class Box:
         self.v = list(v)
 
 
+def libfp(o):
+    """content token of a member that is a library object: its full observable projection (data, labels, ploidy, scaling,
+    effects ...), so that a copy that is not equal to its source is seen as different content"""
+    import json
+    from ..proj import proj
+    if type(o).__module__.startswith("pybrops"):
+        return json.dumps(proj(o), sort_keys=True, default=str)
+    return repr(o)
+
+
+def lib_member(slot, rng):
+    """a real library object for the start container of a slot (genotypes of several ploidies, breeding values, a model)"""
+    import numpy as np
+    from pybrops.popgen.gmat.DensePhasedGenotypeMatrix import DensePhasedGenotypeMatrix
+    from pybrops.popgen.gmat.DenseGenotypeMatrix import DenseGenotypeMatrix
+    from pybrops.popgen.bvmat.DenseBreedingValueMatrix import DenseBreedingValueMatrix
+    from pybrops.model.gmod.DenseAdditiveLinearGenomicModel import DenseAdditiveLinearGenomicModel
+    n, L = rng.randrange(2, 5), rng.randrange(2, 5)
+    taxa = np.array(["t%d" % i for i in range(n)], dtype=object)
+    P = rng.choice([1, 2, 4, 6])
+    ph = np.array([[[rng.randrange(2) for _ in range(L)] for _ in range(n)] for _ in range(P)], dtype="int8")
+    if slot == "genome":
+        return DensePhasedGenotypeMatrix(ph, taxa=taxa, taxa_grp=np.arange(n, dtype="int64"))
+    if slot in ("geno", "pheno"):
+        return DenseGenotypeMatrix(ph.sum(0).astype("int8"), taxa=taxa, taxa_grp=np.arange(n, dtype="int64"), ploidy=P)
+    if slot == "bval":
+        return DenseBreedingValueMatrix.from_numpy(np.array([[rng.randrange(-9, 9) / 2.0 for _ in range(2)] for _ in range(n)]), taxa=taxa,
+                                                   taxa_grp=None, trait=np.array(["y0", "y1"], dtype=object))
+    return DenseAdditiveLinearGenomicModel(beta=np.array([[1.0, -2.0]]), u_misc=None,
+                                           u_a=np.array([[rng.randrange(-4, 5) / 4.0 for _ in range(2)] for _ in range(L)]),
+                                           trait=np.array(["y0", "y1"], dtype=object))
+
+
 class Reg:
     """object identity -> small integer; keeps objects alive so ids are never reused."""
     def __init__(self):
@@ -32,7 +65,7 @@ class Reg:
             mem.append(self.oid(b))
             if isinstance(b, Box):
                 mem.append(self.oid(b.v))
-        fp = tuple((k, tuple(c[k].v) if isinstance(c[k], Box) else repr(c[k])) for k in sorted(c))
+        fp = tuple((k, tuple(c[k].v) if isinstance(c[k], Box) else libfp(c[k])) for k in sorted(c))
         if fp not in self.fps:
             self.fps[fp] = len(self.fps) + 1
         return self.oid(c), mem, self.fps[fp]
@@ -129,6 +162,11 @@ def build(rec, nrep, ngen, loginit, lrep0, via_initop, rng):
     from pybrops.breed.op.log.Logbook import Logbook
 
     starts = [{"main": Box([rng.randrange(100) for _ in range(3)]), "aux": Box([i])} for i in range(5)]
+    if rng.random() < 0.5:
+        # the state containers also hold real library objects (what a programme stores): the replicate's working copy must
+        # be EQUAL to the stored start, object by object
+        for i, s_ in enumerate(SLOTS):
+            starts[i]["lib"] = lib_member(s_, rng)
     rec.starts = starts
 
     class LB(Logbook):
